@@ -201,6 +201,22 @@ let () = iter_lines (fun line ->
              ^ Printf.sprintf " | end ri=%d dens=%d.%d.%d jfif=%d adobe=%d tr=%d |" (int_of_z h.h_restart) (int_of_z h.h_unit) (int_of_z h.h_xd)
                  (int_of_z h.h_yd) (b2i h.h_saw_jfif) (b2i h.h_saw_adobe) (int_of_z h.h_transform)
              ^ String.concat "" (List.map (fun m -> Printf.sprintf " m %d %d %d %s ;" (int_of_z m.sm_code) (int_of_z m.sm_orig) (zlen m.sm_data) (fnv m.sm_data)) stf.r_saved)))
+  | [ "trace"; cfgs; ms ] ->
+      let cfg = cfg_of cfgs in
+      let ev = function
+        | WarnJfifMajor (a, b) -> Printf.sprintf "WarnJfifMajor:%d,%d" (int_of_z a) (int_of_z b)
+        | TrJfif (a, b, x, y, u) -> Printf.sprintf "TrJfif:%d,%d,%d,%d,%d" (int_of_z a) (int_of_z b) (int_of_z x) (int_of_z y) (int_of_z u)
+        | TrThumb (w, h) -> Printf.sprintf "TrThumb:%d,%d" (int_of_z w) (int_of_z h)
+        | TrBadThumbSize n -> Printf.sprintf "TrBadThumbSize:%d" (int_of_z n)
+        | TrThumbJpeg n -> Printf.sprintf "TrThumbJpeg:%d" (int_of_z n)
+        | TrThumbPalette n -> Printf.sprintf "TrThumbPalette:%d" (int_of_z n)
+        | TrThumbRgb n -> Printf.sprintf "TrThumbRgb:%d" (int_of_z n)
+        | TrJfifExt (c, n) -> Printf.sprintf "TrJfifExt:%d,%d" (int_of_z c) (int_of_z n)
+        | TrApp0 n -> Printf.sprintf "TrApp0:%d" (int_of_z n)
+        | TrAdobe (v, a, b, t) -> Printf.sprintf "TrAdobe:%d,%d,%d,%d" (int_of_z v) (int_of_z a) (int_of_z b) (int_of_z t)
+        | TrApp14 n -> Printf.sprintf "TrApp14:%d" (int_of_z n)
+        | TrMisc (c, n) -> Printf.sprintf "TrMisc:%d,%d" (int_of_z c) (int_of_z n) in
+      print_endline ("tr" ^ String.concat "" (List.concat_map (fun (c, d) -> List.map (fun e -> " " ^ ev e) (trace_marker cfg c d)) (segs_of ms)))
   | [ "iccms"; ms ] ->
       (* marker list given directly: code:hex,...  (original_length = data length) *)
       let l = List.map (fun (c, d) -> { sm_code = c; sm_orig = z_of_int (zlen d); sm_data = d }) (segs_of ms) in
